@@ -181,3 +181,16 @@ theorem for_var_named_forloop (P : Prims) (fs : FS) (env : Env) :
     driver's default the range `(0..100001)` has none, under any budget from 100001 on it has (`range_loop_any_size`) -/
 example : loopItems ({} : Cfg).budget (.range 0 100001) = .unmodelled "huge range" := by rfl
 example : ∃ xs, loopItems 100001 (.range 0 100001) = .ok xs := ⟨_, rfl⟩
+
+/-- non-vacuity of `budget_monotone`: `{% for i in (8..11) %}{{ i }}{% endfor %}` renders `891011` under the budget 3 (the
+    smallest that admits the range), and therefore under every larger budget — in every value layer and environment -/
+example (P : Prims) (fs : FS) (env : Env) (m : Int) (hm : 3 ≤ m) :
+    run P stdOut { budget := m } fs 1 (spell Delims.default (forPrintSrc (rangeArgs [105] 8 11) [105] Ws.std Ws.std Ws.std)) 1 env =
+      .ok [56, 57, 49, 48, 49, 49] := by
+  have h0 : run P stdOut { budget := 3 } fs 1 (spell Delims.default (forPrintSrc (rangeArgs [105] 8 11) [105] Ws.std Ws.std Ws.std)) 1 env =
+      .ok [56, 57, 49, 48, 49, 49] :=
+    for_range_numerals_source_std P { budget := 3 } fs 1 1 env [105] 8 11 Ws.std Ws.std Ws.std lexeme_i (by decide) (by decide)
+      (by decide) (by decide) (by decide) (by decide) (by decide)
+  have h := budget_monotone P stdOut { budget := 3 } fs 1 _ 1 env m hm (by rw [h0]; intro w hw; cases hw)
+  rw [h0] at h
+  exact h
